@@ -137,7 +137,8 @@ class Printer:
         """Print a primitive; returns (token start, Coq term)."""
         k = p[0]
         if k == "str":
-            q = self.r.choice("'\"")
+            q = '"' if "'" in p[1] else "'" if '"' in p[1] else self.r.choice("'\"")
+            assert not ("'" in p[1] and '"' in p[1])
             self.w(q)
             pos = self.off
             self.w(p[1])
@@ -554,7 +555,9 @@ class Gen:
     def msgid(self) -> str:
         self.n += 1
         r = self.r
-        tail = r.choice(["", "", " items", "!", " 100%", " é", ", x", " %(k0)s", ":"])
+        # & < > ' " : under auto-escape a literal must reach the catalog unescaped
+        tail = r.choice(["", "", " items", "!", " 100%", " é", ", x", " %(k0)s", ":",
+                         " R&D", " <b>x</b>", " it's", ' say "hi"', " a>b", " &amp;"])
         return f"m{self.n}{tail}"
 
     def slot(self) -> int:
@@ -569,7 +572,7 @@ class Gen:
         r = self.r
         x = r.random()
         if x < 0.65:
-            return ("str", r.choice(["ctx", "menu", "c1", "", "a b"]))
+            return ("str", r.choice(["ctx", "menu", "c1", "", "a b", "R&D menu", "a<b", "it's", 'the "x"', "x>y"]))
         return self.prim_any()
 
     def count(self) -> tuple:
@@ -950,8 +953,14 @@ def c_call(call: tuple, lit: bool) -> str:
     return f"{{| tc_call := {t}; tc_pos := {max(origin, 0)}; tc_lit := {C.cbool(lit)} |}}"
 
 
+import asyncio  # noqa: E402
+
+_LOOP = asyncio.new_event_loop()
+
+
 class Case:
     """One generated program, run on the implementation."""
+    async_twin: tuple | None = None
 
     def __init__(self, prog: list[tuple], rnd: Any, env: Any, datasets: int) -> None:
         from liquid2.messages import extract_from_template
@@ -983,11 +992,26 @@ class Case:
                     data[s] = v
             rec = Recorder()
             exc = None
+            use_async = (k % 2 == 1)          # every second data set through render_async
+            kwargs = {f"v{s}": v for s, v in data.items()}
             try:
-                self.t.render(translations=rec, **{f"v{s}": v for s, v in data.items()})
+                if use_async:
+                    _LOOP.run_until_complete(self.t.render_async(translations=rec, **kwargs))
+                else:
+                    self.t.render(translations=rec, **kwargs)
             except Exception as e:  # noqa: BLE001
                 exc = e
-            self.renders.append({"data": data, "calls": rec.calls, "exc": exc})
+            self.renders.append({"data": data, "calls": rec.calls, "exc": exc, "async": use_async})
+            if k == 0:
+                # the same data through the other path: the lookups must be the same
+                rec2 = Recorder()
+                exc2 = None
+                try:
+                    _LOOP.run_until_complete(self.t.render_async(translations=rec2, **kwargs))
+                except Exception as e:  # noqa: BLE001
+                    exc2 = e
+                self.async_twin = (rec.calls, type(exc).__name__ if exc else None,
+                                   rec2.calls, type(exc2).__name__ if exc2 else None)
 
     # -- Coq terms
     def lit_of(self, call: tuple) -> bool:
@@ -1040,7 +1064,8 @@ class Case:
         return {"source": self.src,
                 "extracted": [[t[0], t[1], repr(t[2]), t[3]] for t in self.tuples] if self.extract_exc is None
                 else repr(self.extract_exc),
-                "renders": [{"data": rd["data"], "calls": [list(c) for c in rd["calls"]],
+                "auto_escape": bool(getattr(self.t.env, "auto_escape", False)) if self.parse_error is None else None,
+                "renders": [{"data": rd["data"], "async": rd.get("async", False), "calls": [list(c) for c in rd["calls"]],
                              "exc": type(rd["exc"]).__name__ if rd["exc"] else None} for rd in self.renders]}
 
 
@@ -1098,6 +1123,12 @@ def oracle(case: Case) -> list[tuple[str, str]]:
                     sig, what = "lookup-not-extracted", "is not extracted at all"
                 fails.append((sig, f"run-time lookup {fam}(ctx={c!r}, id={i!r}, plural={p!r}) made at line {want[0]} "
                                    f"{what}: extracted={sorted(same_ids, key=str)[:3]}"))
+    if case.async_twin is not None:
+        sc, se, ac, ae = case.async_twin
+        if sc != ac or se != ae:
+            diff = next(((a, b) for a, b in zip(sc, ac) if a != b), (len(sc), len(ac)))
+            fails.append(("async-lookups-differ-from-sync",
+                          f"render and render_async with the same data ask the catalog for different things: first difference {diff}; outcomes {se}/{ae}"))
     # 2. translator comments: at most one message per comment, the first one extracted after it
     comment_pos = {}
     for pos, text in case.pr.comments:
@@ -1499,7 +1530,7 @@ def main(chk: C.Check, build: C.Build) -> None:
     for i, prog in enumerate(progs):
         if adj:
             prog = fix_adjacency(prog)
-        e = env_esc if (i % 7 == 3) else env
+        e = env_esc if (i % 3 == 1) else env      # a third of the programs under auto-escape
         case = Case(prog, rnd, e, 3 if not thorough else 4)
         if case.parse_error is not None:
             dist["parse_errors"] += 1
@@ -1587,7 +1618,7 @@ def main(chk: C.Check, build: C.Build) -> None:
                  "(well-formed and ill-formed argument lists, keyword/positional order shuffled), literal and non-literal "
                  "operands, multi-line layouts, plus a fixed corpus (empty template, count 0/1/missing, empty context, comment "
                  "distances); each rendered under 3 (thorough: 4) data sets drawn from "
-                 "{nil,true,false,0,1,2,5,-1,'','a','3',' 2 ','ctx','x y',undefined}; every 7th program under auto_escape. "
+                 "{nil,true,false,0,1,2,5,-1,'','a','3',' 2 ','ctx','x y',undefined}; every third program under auto_escape=True; every second data set rendered with render_async (plus a sync/async twin of the first). "
                  "non-trivial = the program extracted at least one message and a render looked up at least one literal-site message"),
         "samples": [{"source": c.src, "extracted": [[t[0], t[1], repr(t[2]), t[3]] for t in c.tuples][:4],
                      "calls": [list(x) for x in c.renders[0]["calls"]][:4] if c.renders else []}
